@@ -710,7 +710,7 @@ const C02_BASES: [&[u8]; 4] = [
     b"PATCH http://h/p HTTP/1.1\r\nExpect: 100-continue\r\nContent-Length: 2\r\nAccept-Encoding: identity\r\n\r\nxy",
     b"GET /x HTTP/1.1\r\nAccept: text/plain\r\nTransfer-Encoding: chunked\r\nX-A:b\r\n\r\nPUT / HTTP/1.1\r\n\r\n",
 ];
-const C02_SYMS: [u8; 14] = [b' ', b'\r', b'\n', b':', 0, 0xff, 0xc3, b'G', b'g', b'0', b'9', b'/', b'-', b'\t'];
+/// every byte value is tried as replacement and as insertion
 
 fn c02_edit(input: &Input, obs: &mut Obs) -> Result<(), Fail> {
     let p = input.params();
@@ -720,8 +720,8 @@ fn c02_edit(input: &Input, obs: &mut Obs) -> Result<(), Fail> {
         0 => {
             stream.remove(pos);
         }
-        1 => stream[pos] = C02_SYMS[p[3] as usize],
-        _ => stream.insert(pos, C02_SYMS[p[3] as usize]),
+        1 => stream[pos] = p[3] as u8,
+        _ => stream.insert(pos, p[3] as u8),
     }
     let (reqs, end) = ref_parse(&stream, buf_size(), DEFAULT_LIMIT);
     let r = run_focus("C02", &F_C02, &stream, &reqs, &end, None, false, &mut |_, _, w| ReadEv::Data { want: w.max(1), fds: vec![] })?;
@@ -744,7 +744,7 @@ fn c02_edit_enum(_tier: Tier, shard: u64, nshards: u64, f: &mut dyn FnMut(&[u64]
                 if op < 2 && pos as usize >= base.len() {
                     continue;
                 }
-                let nsym = if op == 0 { 1 } else { C02_SYMS.len() as u64 };
+                let nsym = if op == 0 { 1 } else { 256 };
                 for sym in 0..nsym {
                     i += 1;
                     if i % nshards != shard {
@@ -763,7 +763,7 @@ fn c02_plan(tier: Tier) -> Vec<Job> {
     let q = tier == Tier::Quick;
     vec![
         Job { sub: "grammar", kind: JobKind::Pbt { cases: if q { 400_000 } else { 6_000_000 }, max_len: 1000 }, smallbuf: false },
-        Job { sub: "edit", kind: JobKind::Enum { f: c02_edit_enum, bound: "4 canonical request streams x every byte position x {delete, replace by each of 14 symbols, insert each of 14 symbols}" }, smallbuf: false },
+        Job { sub: "edit", kind: JobKind::Enum { f: c02_edit_enum, bound: "4 canonical request streams x every byte position x {delete, replace by each of the 256 byte values, insert each of the 256 byte values}" }, smallbuf: false },
     ]
 }
 
